@@ -234,7 +234,7 @@ def main():
         'setup_cmd': '%s /verif/run.py --selftest' % PY,
         'hooks': {
             'guard': 'PGPY_VERIF',
-            'enable': 'no source hooks: checks import pgpy from /repo and interpose os.urandom / datetime / TZ / S2K work factor from the harness',
+            'enable': 'no source hooks: checks import pgpy from /repo and interpose os.urandom / hashlib.new / TZ / S2K work factor from the harness',
             'baseline_off_cmd': 'cd /repo && /venv/bin/python -m pytest -ra -q -p no:cacheprovider --timeout=900 --continue-on-collection-errors',
             'source_commits': [],
             'add_only': True,
